@@ -13,6 +13,11 @@ mod h_header;
 mod h_maps;
 mod h_misc;
 
+/// number of cases in which the expected answer was non-trivial (a token found, a name resolved, a slice returned ...):
+/// a harness that only ever expects `None` would pass on any code, so 0 witnesses makes the run unusable, not a pass
+pub static WITNESSES: std::sync::atomic::AtomicU64 = std::sync::atomic::AtomicU64::new(0);
+pub fn witness(yes: bool) { if yes { WITNESSES.fetch_add(1, std::sync::atomic::Ordering::Relaxed); } }
+
 pub struct Report { pub harness: &'static str, pub bound: String, pub cases: u64, pub cex: Option<String> }
 
 fn main() {
@@ -46,7 +51,7 @@ fn main() {
         _ => { eprintln!("unknown harness {name}"); std::process::exit(2); }
     };
     let cex = match &r.cex { Some(c) => serde_json::Value::String(c.clone()), None => serde_json::Value::Null };
-    println!("{}", serde_json::json!({"harness": r.harness, "bound": r.bound, "cases": r.cases, "counterexample": cex}));
+    println!("{}", serde_json::json!({"harness": r.harness, "bound": r.bound, "cases": r.cases, "counterexample": cex, "witnesses": WITNESSES.load(std::sync::atomic::Ordering::Relaxed)}));
     std::process::exit(if r.cex.is_some() { 1 } else { 0 });
 }
 
